@@ -166,6 +166,21 @@ CHECKS = {
         note="identity of serialized keys between the two routes and decompression bounds are not yet covered here "
              "(see DESIGN.md C15); c, L < 2^40",
         tech="MIR -> SMT-LIB bit-vectors (z3 QF_BV)"),
+    "C14": dict(
+        cat="other", ref="§10.5 C14",
+        text="Bounded solver verdict on the rows emitted by the real component_mul_generator (row semantics from the "
+             "real fixed-base widget), for ALL values of the scalar, the 256 signed digits and every accumulator: the "
+             "canonicality rows force s < r_jubjub; 256 solver-checked round lemmas plus the leading-zero pin bound "
+             "the centred scalar accumulator by 2^253, so the closing row is an INTEGER equality s = sum e_k 2^(255-k); "
+             "each round's x/y/xy components equal the cross-multiplied Edwards sum of the accumulator and "
+             "e_k*[2^(255-k)]G (table entries symbolic; the 256 constants compared with an independent doubling "
+             "chain); honest witnesses at boundary scalars satisfy the rows and return the independently computed "
+             "[s]G; non-canonical scalars are refused.",
+        note="generators: standard and NUMS (thorough: three more multiples); completeness of the Edwards law on curve "
+             "points and the group-law summation over the 256 rounds are cited; satisfiability for every canonical "
+             "scalar is decided at boundary scalars only",
+        tech="gate extraction from the real composer + symbolic widget rows + SMT (z3 LIA / NIA with integral-domain "
+             "rewriting, solver-checked lemma chain)"),
     "C16": dict(
         cat="other", ref="§10.5 C16",
         text="Bounded symbolic verdict: the real encoders and decoders of Prover, Verifier, Proof and "
@@ -182,6 +197,20 @@ CHECKS = {
              "dlog groups + random-oracle transcript); term identity, native replay of any difference"),
 }
 
+CHECKS["C17"] = dict(
+    cat="other", ref="§10.5 C17",
+    text="Bounded solver verdict, two engines. (M) MIR -> bit-vector path conditions of Prover::try_from_bytes and "
+         "Verifier::try_from_bytes with slices modelled by length: for ALL input lengths and ALL header values no "
+         "slice-index, expect or overflow panic is feasible. (K) Kani/CBMC harnesses on the real crate feed arbitrary "
+         "byte strings of bounded length to Polynomial::from_slice (quick) and CommitKey::from_raw_var_bytes, "
+         "CommitKey::from_slice, OpeningKey::from_slice, Evaluations::from_slice, Proof::from_bytes (thorough): no "
+         "panic, overflow, out-of-bounds access or unwinding-assertion failure.",
+    note="partial: curve/field kernels of the dependency are contract bodies under cfg(kani); compressed circuits "
+         "(inflate / MessagePack), allocation bounds, ProverKey::from_slice bodies and 'usable without panicking' are "
+         "outside; Kani bounds are <= 67..1008 bytes per harness",
+    tech="MIR -> SMT-LIB bit-vectors (cvc5 --solve-bv-as-int, z3) and Kani 0.68 / CBMC 6.11 bounded model checking "
+         "with unwinding assertions")
+
 NOT_APPLICABLE = {
     "C18": "quantifies over thread schedules, pool sizes, processes and feature builds: Kani/CBMC has no "
            "concurrency model, and the parallel paths start at 2^12 elements, far beyond any symbolic bound "
@@ -196,14 +225,15 @@ def main():
         ["git", "-C", "/repo", "log", "--format=%H %s"], text=True).splitlines()
     hook_commits = [l.split()[0] for l in hooks if "verif hooks" in l]
     checks = []
-    for pid, c in CHECKS.items():
+    ENG = {"C15": "mir+smt", "C17": "mir+smt and kani", "C01": "symfield+z3 and mir+smt"}
+    for pid, c in sorted(CHECKS.items()):
         checks.append({
             "property_id": pid,
             "quick_cmd": f"./check {pid} --tier quick",
             "thorough_cmd": f"./check {pid} --tier thorough",
             "evidence_file": f"/verif/evidence/{pid}.json",
             "replay_cmd_template": f"./check {pid} --replay {{path}}",
-            "engine": "symfield+z3",
+            "engine": ENG.get(pid, "symfield+z3"),
             "level_claimed": {"category": c["cat"], "text": c["text"], "design_ref": c["ref"]},
             "level_note": c["note"],
             "technique": c["tech"],
@@ -226,9 +256,18 @@ def main():
         },
         "engines": [
             {"name": "symfield+z3", "path": "/verif/vendor/dusk-bls12_381-sym, /verif/drivers, /verif/py",
-             "serves_properties": sorted(CHECKS.keys()),
+             "serves_properties": sorted(k for k in CHECKS if k not in ("C15", "C17")),
              "kind_free_text": "symbolic execution of the real Rust code by a term-recording copy of the "
                                "dependency dusk-bls12_381; terms decided by z3 over the integers mod r"},
+            {"name": "mir+smt", "path": "/verif/py/mir.py, /verif/py/mirdump.py, /verif/py/checks/capacity.py, "
+                                        "/verif/py/checks/decoder_lengths.py",
+             "serves_properties": ["C01", "C15", "C17"],
+             "kind_free_text": "path-enumerating interpreter of the nightly compiler's MIR dump of /repo's current "
+                               "source -> QF_BV path conditions, decided by cvc5 (integer encoding) / z3"},
+            {"name": "kani", "path": "/verif/kani, /verif/vendor/dusk-bls12_381-sym (cfg(kani) contract bodies)",
+             "serves_properties": ["C17"],
+             "kind_free_text": "Kani 0.68 / CBMC 6.11 proof harnesses over the real crate, arbitrary byte strings "
+                               "of bounded length, unwinding assertions on"},
         ],
         "checks": checks,
         "not_applicable": na,
